@@ -16,8 +16,8 @@ from harness import common as C  # noqa: E402
 from harness import dfgen as D  # noqa: E402
 
 PROP = "C10"
-HEADER = "Require Import PF.Lib.ListX PF.Lib.Chunks PF.Model.Loader PF.Model.LoaderCall."
-MODEL_TARGETS = ["Model/Loader.vo", "Model/LoaderCall.vo"]
+HEADER = "Require Import PF.Lib.ListX PF.Lib.Chunks PF.Model.Loader PF.Model.LoaderCall PF.Model.LoaderFetch."
+MODEL_TARGETS = ["Model/Loader.vo", "Model/LoaderCall.vo", "Model/LoaderFetch.vo"]
 SHARD = 250
 RULE = ("one or two epochs of a torch_frame DataLoader over a TensorFrame (dense, ragged, embedding, dict-valued "
         "columns, with/without y, with/without an explicit num_rows, feature-less) or a materialized / unmaterialized Dataset of 0..12 rows with a "
@@ -85,7 +85,8 @@ CLAUSES = [
 
 # FALSE-ALARM audit of the oracle's "must raise" demands: each with the words of the statement that back it.
 RAISE_DEMANDS = [
-    ("no-raise:sampler / no-raise:batch_sampler (a row index >= n reached the collation and batches were served)",
+    ("no-raise:sampler / no-raise:batch_sampler (a row index >= n or < -n reached the fetch step and batches were served; "
+     "an index in [-n, -1] may be served Python-style or rejected, both accepted)",
      "backed by 'each batch being equal to selecting its rows from the source frame': an index that names no row has no "
      "selection, so returning normally necessarily breaks the clause.  Only THAT a raise happens is demanded -- at "
      "construction or during iteration, any exception type; batches served before the offending one are not judged"),
@@ -117,8 +118,10 @@ ERROR_PATHS = [
     ("tensor_frame.py __getitem__: dict-valued feature branch", "stype text_tokenized", "batch-content:*, columns-disagree"),
     ("tensor_frame.py __getitem__: self._num_rows is not None -> dummy[index].size(0)",
      "explicit_num_rows, featureless", "stale-num-rows:*, batch-size:*, batch-invalid"),
-    ("torch / containers: IndexError for a row index >= n (no wrap-around, no clamping)",
-     "error sampler / batch_sampler with an index in n..n+2", "no-raise:sampler, no-raise:batch_sampler"),
+    ("torch fetch step: range(n)[idx] IndexError for idx >= n or idx < -n, wrap-once for -n <= idx < 0 "
+     "(Model/LoaderFetch.v, theorems c10_fetch_*)",
+     "index_at_or_above_n, index_below_minus_n, index_negative_in_range", "no-raise:sampler, no-raise:batch_sampler, "
+     "batch-content:sampler:*"),
     ("torch: ValueError batch_sampler is mutually exclusive with drop_last", "batch_sampler+drop_last",
      "(torch's restriction, tolerated) the model returns None there; a silent acceptance is compared by the correspondence"),
     ("torch: ValueError RandomSampler over an empty source", "empty_shuffle_*", "raises:init:empty-shuffle"),
@@ -267,12 +270,19 @@ def gen_sampling(rng, n, bs, allow_bad):
         return False, list(bad_ix), None
     if k == "sampler":
         m = rng.randint(0, n + 3)
-        kind = rng.pick(["any", "any", "perm", "rev", "long", "masklike"])
+        kind = rng.pick(["any", "any", "perm", "rev", "long", "masklike", "negative"])
         if kind == "perm" and n > 0:
             idx = list(range(n))
             rng.shuffle(idx)
         elif kind == "rev":
             idx = list(range(n))[::-1]
+        elif kind == "negative" and n > 0:
+            # Python-style negative row indices: range(n)[-1] is the last row; below -n is out of range
+            idx = [rng.randint(-n, n - 1) for _ in range(max(1, m))]
+            idx[rng.randint(0, len(idx) - 1)] = rng.randint(-n, -1)
+            if allow_bad:
+                idx.insert(rng.randint(0, len(idx)), -n - rng.randint(1, 2))
+                bad_ix = []
         elif kind == "long" and n > 0:
             idx = [rng.randint(0, hi) for _ in range(rng.randint(n + 1, 2 * n + 2))]     # repeats, longer than n
         elif kind == "masklike" and n >= 2:
@@ -285,7 +295,8 @@ def gen_sampling(rng, n, bs, allow_bad):
             idx.insert(rng.randint(0, len(idx)), bad_ix[0])
         return False, idx, None
     nb = rng.randint(0, 4)
-    bss = [[rng.randint(0, hi) for _ in range(rng.randint(0, 3))] for _ in range(nb)]
+    lo = -n if (n > 0 and rng.chance(0.3)) else 0
+    bss = [[rng.randint(lo, hi) for _ in range(rng.randint(0, 3))] for _ in range(nb)]
     if n >= 2 and rng.chance(0.5):
         bss.insert(rng.randint(0, len(bss)), [rng.randint(0, 1) for _ in range(n)])        # a mask-like batch
     if bad_ix:
@@ -706,14 +717,18 @@ def oracle(case, obs):
         return dict(key="harness-source", what="harness built a source frame that differs from its own description")
     if len(rows) != n:
         return dict(key="source-rows", what=f"source has {len(rows)} rows, expected {n}")
-    expect_raise = False
+    expect_raise = may_raise = False
     if kind in ("sampler", "batch_sampler"):
         # an index that is actually handed to the collation and is not a row position must raise
-        expect_raise = any(i >= n for b in expected_index_batches(case, list(case["sampler"] or [])) for i in b)
+        served = [i for b in expected_index_batches(case, list(case["sampler"] or [])) for i in b]
+        expect_raise = any(i >= n or i < -n for i in served)
+        # a negative index within [-n, -1]: the current code serves the row counted from the end (range(n)[i]);
+        # the statement backs neither that nor a rejection, so a raise is accepted as well
+        may_raise = (not expect_raise) and any(i < 0 for i in served)
     if kind == "batch_sampler" and case["drop_last"]:
         if "init_exc" in obs:
             return None           # torch's documented restriction (mutually exclusive options), not the property
-    if expect_raise and "init_exc" in obs:
+    if (expect_raise or may_raise) and "init_exc" in obs:
         return None               # WHERE the out-of-range index is rejected (construction or iteration) is not stated
     if "init_exc" in obs:
         return dict(key=f"raises:init:{'empty-' if n == 0 else ''}{kind}",
@@ -732,6 +747,8 @@ def oracle(case, obs):
             if "exc" not in ep:
                 return dict(key=f"no-raise:{kind}", what="an out-of-range row index was served without an error",
                             observed=ep["batches"][-1:] if ep["batches"] else None)
+            continue
+        if "exc" in ep and may_raise:
             continue
         if "exc" in ep:
             return dict(key=f"raises:{kind}", what=f"epoch {e} raised {ep['exc']}: {ep.get('msg')}")
@@ -926,8 +943,16 @@ def stats(cases, obss):
         if m_ in (1, 2):
             hit(f"rows={m_}")
         masklike = lambda l: len(l) == m_ and m_ >= 2 and set(l) <= {0, 1}  # noqa: E731
+
+        every = list(c["sampler"] or []) + [i for b_ in (c["batch_sampler"] or []) for i in b_]
+        if any(-m_ <= i < 0 for i in every):
+            hit("index_negative_in_range")
+        if any(i < -m_ for i in every):
+            hit("index_below_minus_n")
+        if any(i >= m_ for i in every):
+            hit("index_at_or_above_n")
         if c["sampler"] is not None:
-            if len(c["sampler"]) > m_ > 0 and all(i < m_ for i in c["sampler"]):
+            if len(c["sampler"]) > m_ > 0 and all(0 <= i < m_ for i in c["sampler"]):
                 hit("sampler_longer_than_n")
             if masklike(c["sampler"]):
                 hit("sampler_masklike")
@@ -1010,7 +1035,8 @@ def sanity(cases, obss):
         if not d.get("call_forms", {}).get(k):
             probs.append(f"argument form {k} never drawn")
     for k in ("bs=1", "bs=n-1", "bs=n", "bs=n+1", "bs=2n", "last_batch_of_1", "last_batch_of_1:dropped", "rows=1",
-              "rows=2", "sampler_longer_than_n", "sampler_masklike", "batch_masklike"):
+              "rows=2", "sampler_longer_than_n", "sampler_masklike", "batch_masklike", "index_negative_in_range",
+              "index_below_minus_n", "index_at_or_above_n"):
         if not d.get("boundary", {}).get(k):
             probs.append(f"boundary {k} never drawn")
     # the parameter list the call-level Coq model binds positional arguments to must be the live one
@@ -1045,7 +1071,12 @@ def coq_term(case, obs):
         return None      # torch's option check is mirrored by the model but not demanded by the property
     coll = "(Some (fun _ => Some [4999%nat]))" if case["user_collate"] else "None"
     n = eff_n(case)
+    allidx = list(case["sampler"] or []) + [i for b in (case["batch_sampler"] or []) for i in b]
+    neg = any(i < 0 for i in allidx)                    # the nat-indexed models cannot express these cases
+    oob = any(i >= n or i < -n for i in allidx)
     adesc, kdesc = call_desc(case)
+    if neg:
+        adesc = kdesc = []
     cargs = C.clist(adesc, lambda t: coq_value(t[1], t[2]))
     ckw = C.clist(kdesc, lambda t: f'("{t[0]}"%string, {coq_value(t[1], t[2])})')
     terms = []
@@ -1068,7 +1099,9 @@ def coq_term(case, obs):
             ok = len(index_of) == n and len(set(flat)) == len(flat) and all(t < n for t in flat)
             # the RandomSampler order is an input of the model: witnessed by the observed epoch
             order = flat + sorted(set(range(n)) - set(flat)) if ok else list(range(n))
-        if case["batch_sampler"] is not None:
+        if neg:
+            smp = "Sequential"
+        elif case["batch_sampler"] is not None:
             smp = f"(BatchSampler {C.clist(case['batch_sampler'], nl)})"
         elif case["sampler"] is not None:
             smp = f"(Sampler {nl(case['sampler'])})"
@@ -1078,7 +1111,22 @@ def coq_term(case, obs):
             smp = "Sequential"
         kw = (f"{{| kw_batch_size := {C.cnat(case['bs'])}; kw_sampling := {smp}; "
               f"kw_drop_last := {C.cbool(bool(case['drop_last']))}; kw_collate_fn := {coll} |}}")
-        terms.append(f"c10_obs_eqb (c10_run {src} {kw}) {o}")
-        # the call-level model: the positional arguments and the keyword dictionary exactly as passed
-        terms.append(f"c10_obs_eqb (c10_call_run {src} {cargs} {ckw} {nl(order)}) {o}")
+        if not neg:
+            terms.append(f"c10_obs_eqb (c10_run {src} {kw}) {o}")
+            # the call-level model: the positional arguments and the keyword dictionary exactly as passed
+            terms.append(f"c10_obs_eqb (c10_call_run {src} {cargs} {ckw} {nl(order)}) {o}")
+        # the fetch step (range(n)[idx] before collate_fn) on integer indices; torch's option check is not part of it
+        if not (case["batch_sampler"] is not None and case["drop_last"]) and not (neg and (o == "None") and not oob):
+            zl = lambda xs: C.clist(xs, C.cz)  # noqa: E731
+            if case["batch_sampler"] is not None:
+                zs = f"(ZBatchSampler {C.clist(case['batch_sampler'], zl)})"
+            elif case["sampler"] is not None:
+                zs = f"(ZSampler {zl(case['sampler'])})"
+            elif case["shuffle"] and n > 0:
+                zs = f"(ZShuffled {nl(order)})"
+            else:
+                zs = "ZSequential"
+            oz = "None" if o == "None" else f"(Some {C.clist(bt, nl)})"
+            terms.append(f"c10_fetch_eqb (c10_fetch_run {nl(toks)} {C.cnat(case['bs'])} {zs} "
+                         f"{C.cbool(bool(case['drop_last']))}) {oz}")
     return "(" + " && ".join(terms) + ")"
